@@ -11,21 +11,24 @@ direct oracle:  (a) after return every block re-run changes nothing, (b) false l
 import sys
 
 from ..common import leanio, rtlgen
+from . import c11_scc
 from ..common.leanio import InfraError
 
 PID = 'C11'
-DRIVERS = ['rtl']
-MODULE = 'PymtlVerif.Props.C11'
+DRIVERS = ['rtl'] + c11_scc.DRIVERS
+MODULE = ['PymtlVerif.Props.C11', c11_scc.MODULE]
 THEOREMS = ['PV.C11.' + t for t in ['stable_sound', 'watchOKB_sound', 'iterate_some', 'stable_is_fixed_point', 'none_means_unstable',
-                                    'fixed_point_accepted', 'false_loop_eq_acyclic', 'iterate_frame', 'runEntries_frame', 'fixed_transfer', 'run_idem', 'whole_schedule']]
+                                    'fixed_point_accepted', 'false_loop_eq_acyclic', 'iterate_frame', 'runEntries_frame', 'fixed_transfer', 'run_idem', 'whole_schedule']] + c11_scc.THEOREMS
+THEOREM_MODULE = {t: c11_scc.MODULE for t in c11_scc.THEOREMS}
 TRUSTED = [
   'Model/Rtl.lean iterate/runEntries: the SCC super-block template (clone watched, run group, compare, at most 100 sweeps)',
   'the watch list and inner order are parsed from the generated wrapper source (inspect.getsource) by rtlgen.parse_scc',
-  'Kosaraju SCC partition is not modelled: the real partition is executed and its result checked',
-]
+] + c11_scc.TRUSTED
 ASSUMPTIONS = ['self-dependence inside one block (reading a bit the same block writes) is outside the hypotheses (GenDAGPass ignores it)']
 RULE = ('cyclic designs of seven kinds (false / false loop through separately written fields of a bitstruct read as a whole / convergent pair / convergent ring of 3-4 / ring of 10-14 mostly branchy blocks (cut into several meta blocks by Mamba2020) / divergent / update_once-in-loop) plus upstream and '
         'downstream blocks, random operators and widths; a case = (design, pass group); all are non-trivial; distinct by (source, flow)')
+
+RULE = RULE + ' | ' + c11_scc.RULE
 
 def fn1(rng, w, e):
   """a random unary function of width w"""
@@ -313,7 +316,9 @@ def run(ck):
       if outcome != 'UpblkCyclicError':
         ck.violation('update_once-in-cycle-accepted', {'flow': name}, {'source': once_source(uid), 'flow': name}, {'outcome': outcome})
   ck.extra_cov['designs'] = n
+  c11_scc.run(ck)
 
 def replay(ck, data):
+  if (data.get('case') or {}).get('scc'): return c11_scc.replay(ck, data)
   print(data.get('kind'), data.get('signature')); print(str(data.get('detail'))[:1500])
   return rtlgen.replay_source(ck, data.get('case') or {})
